@@ -287,6 +287,14 @@ pub fn oracle(scn: &SenderScn, ctx: &Ctx, trace: &SenderTrace) {
                     for (pi, p) in trace.polls.iter().enumerate() {
                         let end_seq = trace.polls.get(pi + 1).map(|n| n.seq_begin).unwrap_or(u64::MAX);
                         let due_by_trigger = trig_seq.map(|ts| p.seq_begin > ts && p.t_us > base_due_us + 1000).unwrap_or(false);
+                        // (I/O fault: a transfer start that hits the failing rewind of a stream source gives up for that
+                        // read - the queue goes on at the next one. With such a source in the run one idle read is not
+                        // enough, the following read must be idle as well)
+                        let seek_fault = scn.objects.iter().any(|x| matches!(x.source, SourceSpec::StreamFailingSeek(..)));
+                        let next_idle = trace.polls.get(pi + 1).map(|n| n.drained && n.n_pkts == 0 && trace.polls.get(pi + 2).map(|m| m.seq_begin).unwrap_or(u64::MAX) < gone).unwrap_or(false);
+                        if seek_fault && !next_idle {
+                            continue;
+                        }
                         // a read that returns nothing at all: the sender is idle (no other object holds it up)
                         if p.drained && p.n_pkts == 0 && p.seq_begin > from_seq && (p.t_us > due_us + 1000 || due_by_trigger) && end_seq < gone {
                             violate(
